@@ -54,6 +54,12 @@ func (o *Out) count(k string, n int64) {
 	o.Stats[k] += n
 	// inputs of a recorded finding that a stratum produces but does not hand to the library by default (several of them
 	// end the process): the class is reported as met, under its tag in KNOWN_FINDINGS.txt
+	if tag, ok := map[string]string{
+		"skipped_without_AUDIT_OPEN:interface_at_offset_0_below_1000_levels":   "InterfaceAtOffsetZeroFalseCycle",
+		"skipped_without_AUDIT_OPEN:MarshalNoEscape_of_a_stack_resident_value": "NoEscapeStackResidentValue",
+	}[k]; ok && os.Getenv("AUDIT_OPEN") == "" {
+		o.known(tag, "inputs of this class are generated and, by default, not handed to the library (AUDIT_OPEN=1 runs them)")
+	}
 	if strings.HasPrefix(k, "audit_open_defect_cases:") && os.Getenv("AUDIT_OPEN") == "" {
 		tag := strings.TrimSuffix(strings.TrimPrefix(k, "audit_open_defect_cases:"), "(crash)")
 		o.known(tag, "inputs of this class are generated and, by default, not handed to the library (AUDIT_OPEN=1 runs them)")
